@@ -2,8 +2,9 @@ INIT Init
 NEXT Next
 CHECK_DEADLOCK FALSE
 CONSTANTS MaxW = 3
+          MaxWA = 2
           CountsA = {1, 99, 100}
-          KindsA = {"e", "a"}
+          KindsA = {"e", "a", "1"}
           MaxSegsA = 3
           CountsB = {1}
           MaxSegsB = 2
